@@ -354,3 +354,27 @@ pub fn t_noorder_count<'a>(input: In<'a, i32>) {
         .all_ticks()
         .embedded_output("out0");
 }
+
+/// a *bounded top-level* singleton cloned into the tick: it must be there in every tick, not
+/// only in the first one (production emits `persist::<'static>()` for it)
+pub fn t_clone_into_tick<'a>(input: In<'a, i32>) {
+    let tick = input.location().tick();
+    let k = input.location().singleton(q!(10i32));
+    input
+        .batch(&tick, nondet!(/** simulator owns the batch boundaries */))
+        .cross_singleton(k.clone_into_tick(&tick))
+        .map(q!(|(x, k)| x.wrapping_add(k)))
+        .all_ticks()
+        .embedded_output("out0");
+}
+
+/// the same for a bounded top-level optional (maximum of a static collection)
+pub fn t_clone_into_tick_opt<'a>(input: In<'a, i32>) {
+    let tick = input.location().tick();
+    let m = input.location().source_iter(q!(vec![3i32, 5, 4])).max();
+    input
+        .batch(&tick, nondet!(/** simulator owns the batch boundaries */))
+        .cross_singleton(m.clone_into_tick(&tick))
+        .all_ticks()
+        .embedded_output("out0");
+}
